@@ -124,6 +124,27 @@ theorem numeric_cmp_exact (s₁ s₂ : Str) (a b : Dec)
     (Decimal.cmp a b > 0 ↔ exactLt b a) ∧ (Decimal.cmp a b ≥ 0 ↔ exactLe b a) :=
   cmp_exact a b (parse_norm h₁) (parse_norm h₂)
 
+/-- numerals of the everyday shape are accepted and get the value they denote: optional sign and
+1–19 digits … -/
+theorem numeral_int_accepted (sign : Str) (neg : Bool) (ds : Str) (hsign : SignOf sign neg)
+    (hd : AllDigits ds) (hne : ds ≠ []) (hl : ds.length ≤ 19) :
+    Decimal.parse (sign ++ ds) = some (mkDec neg (natVal ds) 0) :=
+  parse_short_int sign neg ds hsign hd hne hl
+
+/-- … or optional sign, digits, a dot and 1+ digits (≤ 19 bytes after the sign): the value is
+`±(digits without the dot) / 10^(number of fractional digits)`.
+(Longer numerals — the u128 and big.Int paths, up to 200 bytes — and the rejected shapes are pinned
+by the differential `dec` stream only.) -/
+theorem numeral_frac_accepted (sign : Str) (neg : Bool) (ds fs : Str) (hsign : SignOf sign neg)
+    (hd : AllDigits ds) (hf : AllDigits fs) (hne : ds ≠ []) (hfne : fs ≠ [])
+    (hl : (ds ++ cDot :: fs).length ≤ 19) :
+    Decimal.parse (sign ++ (ds ++ cDot :: fs)) = some (mkDec neg (natVal (ds ++ fs)) fs.length) :=
+  parse_short_frac sign neg ds fs hsign hd hf hne hfne hl
+
+example : Decimal.parse [45, 49, 46, 53, 48] = some ⟨true, 150, 2⟩ :=
+  numeral_frac_accepted [cMinus] true [49] [53, 48] (Or.inr (Or.inr ⟨rfl, rfl⟩)) (by decide) (by decide)
+    (by decide) (by decide) (by decide)
+
 /-! ## hash -/
 
 /-- structurally equal trees give the same hash input (the encoding is a function of the tree
